@@ -48,7 +48,7 @@ def gen_structure(rng, d, ch=None):
             qflat += [list(c) for _ in range(rng.randint(1, 4))]
     blocking = rng.choice(['sorted', 'shuffled', 'shuffled-bunched']) if mods else 'sorted'
     if blocking == 'sorted':
-        qflat.sort()
+        qflat.sort(key=lambda c: tuple(reversed(c)))     # tenpy's lexsort order (last charge is the primary key)
     else:
         rng.shuffle(qflat)
     return dict(ch=ch, qflat=qflat, q=q, qconj=rng.choice([1, -1]), blocking=blocking)
